@@ -590,7 +590,9 @@ func (e *Env) startLS() error {
 	store.SetL0Retention(time.Duration(cfg.L0RetentionMs) * time.Millisecond)
 	store.SetRetentionEnabled(cfg.RetentionEnabled)
 	store.SetVerifyCompaction(cfg.VerifyCompaction)
-	store.SetShutdownSyncTimeout(2 * time.Second)
+	// not a multiple of the retry interval: a retry timer and the deadline would
+	// otherwise fire at the same simulated instant, in an order nobody decides
+	store.SetShutdownSyncTimeout(2*time.Second + 100*time.Millisecond)
 	store.SetShutdownSyncInterval(500 * time.Millisecond)
 	if err := store.Open(context.Background()); err != nil {
 		return err
